@@ -295,6 +295,7 @@ def suites(tier: str) -> t.List[Suite]:
     big = tier == 'thorough'
     leaves = 8 if big else 4
     return [
+        Suite('hash-hostile', check_escape, strategy=lambda: gen.conv_cases(gen.hash_hostile_specs()), examples=2000 if big else 150, budget_s=120 if big else 20, render=gen.render_case),
         Suite('escape', check_escape, strategy=lambda: gen.conv_cases(gen.all_type_specs(leaves)), examples=6000 if big else 500,
               budget_s=480 if big else 40, render=gen.render_case),
         Suite('unsupported', check_unsupported, cases=unsupported_cases, budget_s=120),
